@@ -189,6 +189,89 @@ static void pfx_cb(const struct pfx_record *r, void *data)
 	sl_add(data, b);
 }
 
+/* ---- C09/C10: the update callbacks as a change log.  A shadow set per table is maintained from the callbacks only;
+ * at every dump it must equal the table.  Nothing is printed while they agree (the model prints nothing either). */
+static struct strlist cb_pfx, cb_key;
+static char cb_bad[400];
+
+static void shadow_apply(struct strlist *l, const char *what, const char *s, bool added)
+{
+	size_t i;
+
+	for (i = 0; i < l->n; i++)
+		if (!strcmp(l->v[i], s))
+			break;
+	if (added) {
+		if (i < l->n && !cb_bad[0])
+			snprintf(cb_bad, sizeof(cb_bad), "%s announced twice by the callback: %.300s", what, s);
+		else if (i == l->n)
+			sl_add(l, s);
+	} else {
+		if (i == l->n) {
+			if (!cb_bad[0])
+				snprintf(cb_bad, sizeof(cb_bad), "%s reported removed but not in the log's set: %.300s", what, s);
+		} else {
+			free(l->v[i]);
+			l->v[i] = l->v[--l->n];
+		}
+	}
+}
+
+static void pfx_update_cb(struct pfx_table *t, const struct pfx_record rec, const bool added)
+{
+	struct strlist one = {0};
+
+	(void)t;
+	pfx_cb(&rec, &one);
+	shadow_apply(&cb_pfx, "prefix", one.v[0], added);
+	free(one.v[0]);
+	free(one.v);
+}
+
+static void key_str(char *b, size_t n, const uint8_t *ski, uint32_t asn, const uint8_t *spki, const struct rtr_socket *so)
+{
+	char h1[2 * SKI_SIZE + 1], h2[2 * SPKI_SIZE + 1];
+
+	hexstr(h1, ski, SKI_SIZE);
+	hexstr(h2, spki, SPKI_SIZE);
+	snprintf(b, n, "%u:%s:%s:%d", asn, h1, h2, srcid(so));
+}
+
+static void spki_update_cb(struct spki_table *t, const struct spki_record rec, const bool added)
+{
+	char b[400];
+
+	(void)t;
+	key_str(b, sizeof(b), rec.ski, rec.asn, rec.spki, rec.socket);
+	shadow_apply(&cb_key, "router key", b, added);
+}
+
+static void shadow_check(const char *what, struct strlist *shadow, struct strlist *table)
+{
+	bool same = shadow->n == table->n;
+
+	if (shadow->n)
+		qsort(shadow->v, shadow->n, sizeof(char *), cmpstr);
+	for (size_t i = 0; same && i < table->n; i++)
+		same = !strcmp(shadow->v[i], table->v[i]);
+	if (!same && !cb_bad[0])
+		snprintf(cb_bad, sizeof(cb_bad), "%s table holds %zu records, replaying the callbacks gives %zu", what, table->n, shadow->n);
+	if (cb_bad[0]) {
+		tracef("X cblog %s", cb_bad);
+		cb_bad[0] = 0;
+	}
+}
+
+static void shadow_reset(void)
+{
+	for (size_t i = 0; i < cb_pfx.n; i++)
+		free(cb_pfx.v[i]);
+	for (size_t i = 0; i < cb_key.n; i++)
+		free(cb_key.v[i]);
+	cb_pfx.n = cb_key.n = 0;
+	cb_bad[0] = 0;
+}
+
 /* key entries are enumerated through the table's own list (private header) */
 static void dump_tables(const char *tag)
 {
@@ -200,6 +283,7 @@ static void dump_tables(const char *tag)
 	pfx_table_for_each_ipv6_record(&pfxt, pfx_cb, &l);
 	if (l.n)
 		qsort(l.v, l.n, sizeof(char *), cmpstr);
+	shadow_check("prefix", &cb_pfx, &l);
 	len = (size_t)snprintf(line, cap, "%s pfx", tag);
 	for (size_t i = 0; i < l.n; i++) {
 		size_t need = len + strlen(l.v[i]) + 2;
@@ -234,6 +318,7 @@ static void dump_tables(const char *tag)
 	pthread_rwlock_unlock(&spkit.lock);
 	if (k.n)
 		qsort(k.v, k.n, sizeof(char *), cmpstr);
+	shadow_check("router-key", &cb_key, &k);
 	len = (size_t)snprintf(line, cap, "%s keys", tag);
 	for (size_t i = 0; i < k.n; i++) {
 		size_t need = len + strlen(k.v[i]) + 2;
@@ -499,8 +584,9 @@ static void fresh_tables(void)
 		pfx_table_free(&pfxt);
 		spki_table_free(&spkit);
 	}
-	pfx_table_init(&pfxt, NULL);
-	spki_table_init(&spkit, NULL);
+	pfx_table_init(&pfxt, pfx_update_cb);
+	spki_table_init(&spkit, spki_update_cb);
+	shadow_reset();
 	tables_live = true;
 }
 
